@@ -107,9 +107,20 @@ def _concrete_classes(repo: Repo, base: ClassInfo) -> list[ClassInfo]:
     out = []
     for c in [base, *repo.subclasses(base)]:
         names = {n for k in repo.mro(c) for n, m in k.methods.items() if m.is_abstract}
-        if all(not repo.lookup_method(c, n).is_abstract for n in names):
+        if all(not _abstract_on(repo, c, n) for n in names):
             out.append(c)
     return out
+
+
+def _abstract_on(repo: Repo, c: ClassInfo, name: str) -> bool:
+    """Is `name` still abstract on class c?  A method definition or a class level assignment (`name = partialmethod(...)`, an
+    alias of another method) earlier in the method resolution order implements it."""
+    for k in repo.mro(c):
+        if name in k.methods:
+            return k.methods[name].is_abstract
+        if name in k.class_attrs:
+            return False
+    return False
 
 
 def _ann(T, fi: FuncInfo, p: ast.arg):
@@ -205,6 +216,7 @@ def run_r2(repo: Repo, res: Result) -> None:
         for entry in entries:
             verdicts: dict[str, dict[str, list]] = {f: {"good": [], "swapped": [], "unknown": []} for f in fields}
             dropped: dict[str, set] = {f: set() for f in fields}
+            lost_track: list[str] = []
             init = repo.lookup_method(cls, "__init__")
             filters_by_design = init is not None and any(any(m[0] == "cls" and m[1].rsplit(".", 1)[-1] == "LayerMapping" for m in members(_ann(T, init, p))) for p in init.params[1:])
             for world in (True, False):
@@ -251,6 +263,7 @@ def run_r2(repo: Repo, res: Result) -> None:
                     rv = it.call_method(det, entry.name, args, f"run-{world}")
                 except (RuntimeError, RecursionError, KeyError, AttributeError, TypeError, IndexError, ValueError) as e:
                     raise AnalysisError(f"{entry.fq}: abstract interpretation failed ({type(e).__name__}: {e})") from e
+                lost_track += [t for t in it.tops if t not in lost_track]
                 objs = [sh for sh in rv if isinstance(sh, Ref) and sh.kind == "obj" and it.cell(sh).ci is not None and it.cell(sh).ci.fq == viol.fq]
                 if not objs:
                     n += len(fields)
@@ -270,6 +283,11 @@ def run_r2(repo: Repo, res: Result) -> None:
                                 verdicts[f]["unknown"].append((kind, sh.why))
                             elif not (isinstance(sh, Const) and sh.value is None):
                                 verdicts[f]["unknown"].append((kind, f"bucket value is not a collection: {type(sh).__name__}"))
+            if lost_track and not any(v["good"] or v["swapped"] or v["unknown"] for v in verdicts.values()):
+                # no pair reached any bucket and the interpreter met something it does not model: that is no verdict
+                n += len(fields)
+                res.undecide("C03.R2", f"{entry.relpath}::{cls.name}.{entry.name}::buckets", f"no pair of the query results reached a bucket in the abstract evaluation, which lost track ({'; '.join(lost_track[:2])})", where(entry, entry.node))
+                continue
             for f in fields:
                 v = verdicts[f]
                 construct = f"{cls.module.relpath}::{cls.name}.{entry.name}::orientation of {f}"
@@ -455,6 +473,25 @@ def run_r3_r4(repo: Repo, res: Result) -> None:
 
 
 # --------------------------------------------------------------------------- R5
+
+
+def _roots(it: Interp, ids) -> frozenset:
+    """Iteration identities with every iteration over something that stems from another iteration (the pairs of one search result,
+    the parts of one key, a filtered copy of the key set, the items a generator yielded per key) replaced by the iteration(s) it
+    stems from: they all stand for 'the work done for one key'."""
+    out: set = set()
+
+    def walk(x, seen):
+        ps = it.loop_parents.get(x, set()) - seen - {x}
+        if not ps:
+            out.add(x)
+            return
+        for p_ in ps:
+            walk(p_, seen | {x})
+
+    for x in ids:
+        walk(x, frozenset())
+    return frozenset(out)
 
 
 def _plain(srcs) -> set:
@@ -651,8 +688,8 @@ def run_r5(repo: Repo, res: Result) -> None:
                         if isinstance(sh, Opaque) or (isinstance(sh, Const) and sh.value is None):
                             continue
                         if isinstance(sh, Sc):
-                            if sh.srcs and sh.srcs <= pset and sh.eids:
-                                used |= sh.srcs
+                            if _plain(sh.srcs) and _plain(sh.srcs) <= pset and "search" not in sh.srcs and sh.eids:
+                                used |= sh.srcs & pset
                                 partial += [f"{mk[2]} [{mk[1]}]" for mk in sh.marks if mk[0] == "part"]
                             else:
                                 extra.append(f"`{norm(c['node'], 80)}`: a scalar argument that is not an element of {sorted(pset)}")
@@ -660,9 +697,9 @@ def run_r5(repo: Repo, res: Result) -> None:
                             els = it.elems(V(sh))
                             scs = _deep_scalars(it, els)
                             plain = lambda sc: _plain(sc.srcs)  # noqa: E731
-                            if scs and all(isinstance(x, Sc) for x in els) and all(sc.srcs and sc.srcs <= pset and not (sc.eids & c["live"]) for sc in scs):
+                            if scs and all(isinstance(x, Sc) for x in els) and all(_plain(sc.srcs) and _plain(sc.srcs) <= pset and "search" not in sc.srcs and not (sc.eids & c["live"]) for sc in scs):
                                 for sc in scs:
-                                    used |= sc.srcs
+                                    used |= sc.srcs & pset
                                     partial += [f"{mk[2]} [{mk[1]}]" for mk in sc.marks if mk[0] == "part"]
                                 pname = c["names"][ai] if ai < len(c["names"]) else None
                                 mut = _mutates_param(repo, c["fn"], pname) if pname and c["live"] and not (it.cell(sh).born & c["live"]) else None
@@ -732,14 +769,16 @@ def run_r5(repo: Repo, res: Result) -> None:
                         if not vs or not all("search" in sc.srcs for sc in vs):
                             bad_vals.append("the value stored for a key is not (only) the result of a graph search")
                             continue
-                        veids = frozenset().union(*[sc.eids | (sc.assoc if "batched" in sc.srcs else frozenset()) for sc in vs])
-                        # iterations over the search result itself (copying / filtering / re-shaping its pairs) are part of the same key's work
-                        veids = frozenset(x for x in veids if x in keids or "search" not in it.loop_srcs.get(x, ()))
+                        veids = frozenset().union(*[sc.eids | sc.assoc for sc in vs])
+                        # iterations over something that stems from another iteration (the pairs of one search result, the parts of one
+                        # key, the items a generator yielded per key) are part of that iteration's work
+                        veids, keids = _roots(it, veids), _roots(it, keids)
                         vsrcs = frozenset().union(*[sc.srcs & pset for sc in vs])
                         key_loops = {x for x in keids if x in it.loop_eids}
+                        origin = _roots(it, it.cell(sh).origin)
                         if vsrcs != ksrcs:
                             bad_vals.append(f"the key derives from {sorted(ksrcs)}, the search stored under it was run for {sorted(vsrcs)}")
-                        elif (vloops := {x for x in veids if x in it.loop_eids} & key_loops) and not (it.cell(sh).born & vloops):
+                        elif (vloops := {x for x in veids if x in it.loop_eids} & key_loops) and not (origin & vloops):
                             # the list outlives the iterations (over the keys) whose search results it holds
                             bad_vals.append("the list stored under a key is shared between the keys (created outside the loop over the keys): it also holds the imports found for other keys")
                         elif key_loops and veids and not (veids & it.loop_eids):
